@@ -1,6 +1,7 @@
 """C03 Journey continuity."""
 from ..families import *
 from .. import universal
+from ..history import History, markers
 
 
 def _isnan(x):
@@ -9,6 +10,10 @@ def _isnan(x):
 
 class Monitor(object):
     prop = "C03"
+
+    def violate(self, clause, detail):
+        detail["history"] = markers(self.hub)
+        self.hub.violate("C03", clause, detail)
 
     def __init__(self):
         self.validated = 0
@@ -67,13 +72,13 @@ class Monitor(object):
             # ---- first record / no record ---------------------------------------------------------
             if not recs:
                 if loc == -1:
-                    hub.violate("C03", "at_exit_without_record", {"id": i})
+                    self.violate("at_exit_without_record", {"id": i})
                 elif b is not None and (loc != b[1] or ind.arrival_date != b[0]):
-                    hub.violate("C03", "first_visit_not_at_arrival_node", {"id": i, "born": b, "at": loc, "arrival_date": ind.arrival_date})
+                    self.violate("first_visit_not_at_arrival_node", {"id": i, "born": b, "at": loc, "arrival_date": ind.arrival_date})
                 continue
             r1 = recs[0]
             if b is not None and (r1.node != b[1] or r1.arrival_date != b[0]):
-                hub.violate("C03", "first_record_not_at_arrival", {"id": i, "born": b, "record_node": r1.node, "record_arrival": r1.arrival_date})
+                self.violate("first_record_not_at_arrival", {"id": i, "born": b, "record_node": r1.node, "record_arrival": r1.arrival_date})
             # ---- chain ----------------------------------------------------------------------------
             services_in_visit = 0
             for k, r in enumerate(recs):
@@ -81,12 +86,12 @@ class Monitor(object):
                 last = k == len(recs) - 1
                 if t in ("baulk", "rejection"):
                     if len(recs) != 1:
-                        hub.violate("C03", "terminal_record_not_alone", {"id": i, "types": [x.record_type for x in recs]})
+                        self.violate("terminal_record_not_alone", {"id": i, "types": [x.record_type for x in recs]})
                     break
                 if t == "service":
                     services_in_visit += 1
                     if services_in_visit > 1:
-                        hub.violate("C03", "two_service_records_in_one_visit", {"id": i, "node": r.node})
+                        self.violate("two_service_records_in_one_visit", {"id": i, "node": r.node})
                 same_visit = (t == "interrupted service" and _isnan(r.destination))
                 if not same_visit:
                     services_in_visit = 0
@@ -95,34 +100,34 @@ class Monitor(object):
                 nx = recs[k + 1]
                 if same_visit:
                     if nx.node != r.node or nx.arrival_date != r.arrival_date:
-                        hub.violate("C03", "interrupted_visit_not_continued", {"id": i, "node": r.node, "next_node": nx.node,
+                        self.violate("interrupted_visit_not_continued", {"id": i, "node": r.node, "next_node": nx.node,
                                                                                "arrival": r.arrival_date, "next_arrival": nx.arrival_date})
                 else:
                     dest = self.leads_to(r, i)
                     if t == "renege" and (i, r.exit_date) not in self.jockey:
                         dest = None  # target unknown (no router seam): only the instant is checked
                     if dest is not None and nx.node != dest:
-                        hub.violate("C03", "next_record_not_at_destination", {"id": i, "type": t, "node": r.node, "destination": dest, "next_node": nx.node})
+                        self.violate("next_record_not_at_destination", {"id": i, "type": t, "node": r.node, "destination": dest, "next_node": nx.node})
                     if nx.arrival_date != r.exit_date:
-                        hub.violate("C03", "next_record_not_at_instant", {"id": i, "type": t, "exit": r.exit_date, "next_arrival": nx.arrival_date})
+                        self.violate("next_record_not_at_instant", {"id": i, "type": t, "exit": r.exit_date, "next_arrival": nx.arrival_date})
             # ---- current location vs last record ------------------------------------------------------
             rl = recs[-1]
             t = rl.record_type
             if t == "interrupted service" and _isnan(rl.destination):
                 if loc != rl.node:
-                    hub.violate("C03", "location_ne_last_record", {"id": i, "at": loc, "last": t, "record_node": rl.node})
+                    self.violate("location_ne_last_record", {"id": i, "at": loc, "last": t, "record_node": rl.node})
                 elif ind.arrival_date != rl.arrival_date:
-                    hub.violate("C03", "visit_restarted_without_record", {"id": i, "node": loc})
+                    self.violate("visit_restarted_without_record", {"id": i, "node": loc})
             else:
                 dest = self.leads_to(rl, i)
                 if t == "renege" and (i, rl.exit_date) not in self.jockey:
                     dest = None
                 if dest is not None and loc != dest:
-                    hub.violate("C03", "location_ne_last_record", {"id": i, "at": loc, "last": t, "destination": dest})
+                    self.violate("location_ne_last_record", {"id": i, "at": loc, "last": t, "destination": dest})
                 if loc != -1 and t in ("service", "interrupted service", "renege") and ind.arrival_date != rl.exit_date:
-                    hub.violate("C03", "current_visit_not_at_instant", {"id": i, "exit": rl.exit_date, "arrival": ind.arrival_date})
+                    self.violate("current_visit_not_at_instant", {"id": i, "exit": rl.exit_date, "arrival": ind.arrival_date})
                 if dest is None and loc == -1 and t not in ("renege",):
-                    hub.violate("C03", "at_exit_but_last_record_not_final", {"id": i, "last": t})
+                    self.violate("at_exit_but_last_record_not_final", {"id": i, "last": t})
 
 
 class Spec(object):
@@ -136,7 +141,7 @@ class Spec(object):
     ]
 
     def monitors(self, cfg):
-        return [Monitor()]
+        return [History(), Monitor()]
 
     def nontrivial(self, cfg, res):
         return "multi_record" in res.flags
